@@ -66,6 +66,46 @@ def fc(d, delta):
     return z3.And(d * delta >= 0, zabs(d) <= 3 * zabs(delta))
 
 
+def stmt_spec_fc(hl, hr, dl, dr):
+    """statement of lemma spec_d_is_fc (hypotheses => conclusions) for given reals"""
+    hl, hr, dl, dr = R(hl), R(hr), R(dl), R(dr)
+    d = spec_interior(hl, hr, dl, dr)
+    e = spec_end(hl, hr, dl, dr)
+    return z3.And(hl > 0, hr > 0), [("interior-fc-left", fc(d, dl)), ("interior-fc-right", fc(d, dr)),
+                                     ("end-fc", fc(e, dl))]
+
+
+def stmt_hermite(h, y0, y1, d0, d1, t):
+    """statement of lemma hermite_shape for given reals"""
+    h, y0, y1, d0, d1, t = [R(v) for v in (h, y0, y1, d0, d1, t)]
+    delta = (y1 - y0) / h
+    p2 = (3 * delta - 2 * d0 - d1) / h
+    p3 = (d0 + d1 - 2 * delta) / (h * h)
+    P = lambda s: y0 + s * (d0 + s * (p2 + s * p3))
+    dP = lambda s: d0 + 2 * p2 * s + 3 * p3 * s * s
+    lo = z3.If(y0 <= y1, y0, y1)
+    hi = z3.If(y0 <= y1, y1, y0)
+    hyp0 = z3.And(h > 0, t >= 0, t <= h)
+    hyp1 = z3.And(fc(d0, delta), fc(d1, delta))
+    return hyp0, [("knot-left", P(0) == y0), ("knot-right", P(h) == y1), ("slope-left", dP(0) == d0),
+                  ("slope-right", dP(h) == d1)], hyp1, [("monotone", dP(t) * delta >= 0),
+                                                          ("bounded-below", P(t) >= lo),
+                                                          ("bounded-above", P(t) <= hi)]
+
+
+def use_spec_fc(hl, hr, dl, dr):
+    """an instance of the (separately proved) lemma spec_d_is_fc, as a hypothesis"""
+    hyp, concl = stmt_spec_fc(hl, hr, dl, dr)
+    return z3.Implies(hyp, z3.And(*[c for _, c in concl]))
+
+
+def use_hermite(h, y0, y1, d0, d1, t):
+    """an instance of the (separately proved) lemma hermite_shape, as a hypothesis"""
+    h0, c0, h1, c1 = stmt_hermite(h, y0, y1, d0, d1, t)
+    return z3.And(z3.Implies(h0, z3.And(*[c for _, c in c0])),
+                  z3.Implies(z3.And(h0, h1), z3.And(*[c for _, c in c1])))
+
+
 def searchsorted(I, seq, values, right=False, **kw):
     """A4: torch.searchsorted on a sorted 1-d sequence: s = number of entries <= v (right=True)
     or < v (right=False); the defining inequalities are assumed at every element read."""
@@ -173,27 +213,54 @@ def register(reg, prop="C20"):
     # ---- PCHIP1D.__init__ ------------------------------------------------------------------
     reg.add_class("PCHIP1D", module=MOD, fields={})
 
+    def secants(x, y):
+        n = x.shape[0]
+        hh = T.LamTensor((ops.sub(n, 1),), lambda k: R(x.fn(ops.add(k, 1))) - R(x.fn(k)))
+        dd = T.LamTensor((ops.sub(n, 1),), lambda k: (R(y.fn(ops.add(k, 1))) - R(y.fn(k)))
+                         / (R(x.fn(ops.add(k, 1))) - R(x.fn(k))))
+        return hh, dd
+
     def setup_init(I, fr):
         n = _sym_len(I, "n", 0)
         fr.locals["self"] = SymObj("PCHIP1D", MOD)
         fr.locals["x"] = reg.sym_tensor(I, "x", (n,))
         fr.locals["y"] = reg.sym_tensor(I, "y", (n,))
+
+    def ghost_init(I, fr):
+        """ghost: interval widths / secants of the data and the derivative vector `dg`"""
         x, y = fr.locals["x"], fr.locals["y"]
-        hh = T.LamTensor((n - 1,), lambda k: R(x.fn(k + 1)) - R(x.fn(k)))
-        dd = T.LamTensor((n - 1,), lambda k: (R(y.fn(k + 1)) - R(y.fn(k))) / (R(x.fn(k + 1)) - R(x.fn(k))))
-        fr.locals["H"] = hh
-        fr.locals["DELTA"] = dd
+        hh, dd = secants(x, y)
+        fr.locals["H"], fr.locals["DELTA"] = hh, dd
+        s = fr.locals["self"]
+        n = x.shape[0]
+        if "_coeffs" not in s.fields:
+            # call site / derived context: the constructed object's fields are fresh values
+            # constrained only by the ensures clauses
+            s.fields["_coeffs"] = reg.sym_tensor(I, I.ctx.fresh_name("coeffs"), (ops.sub(n, 1), 4))
+            s.fields["x"] = reg.sym_tensor(I, I.ctx.fresh_name("self.x"), (n,))
+            s.fields["y"] = reg.sym_tensor(I, I.ctx.fresh_name("self.y"), (n,))
+        s.fields["dg"] = T.LamTensor((n,), lambda i: spec_d(I, hh, dd, i))
+        # instances of lemma spec_d_is_fc (proved separately for all reals): at every index read
+        # (interior pair i-1,i) and at both ends
+        m = hh.shape[0]
+        I.add_forall(ForallV(lambda i: use_spec_fc(hh.fn(ops.sub(i, 1)), hh.fn(i), dd.fn(ops.sub(i, 1)), dd.fn(i)),
+                             1, m, "i"))
+        I.session.note("lemma instances used: spec_d_is_fc (proved in this run)")
+        I.ctx.assume(z3.Implies(to_z3(m) >= 2, z3.And(
+            use_spec_fc(hh.fn(0), hh.fn(1), dd.fn(0), dd.fn(1)),
+            use_spec_fc(hh.fn(ops.sub(m, 1)), hh.fn(ops.sub(m, 2)), dd.fn(ops.sub(m, 1)), dd.fn(ops.sub(m, 2))))))
 
     reg.add_contract(Contract(
         f"{MOD}:PCHIP1D.__init__", property=prop,
-        params={"self": hd, "x": hd, "y": hd}, setup=setup_init,
+        params={"self": hd, "x": hd, "y": hd}, setup=setup_init, post_setup=ghost_init,
         policies={f"{MOD}:PCHIP1D._validate_xy": "inline"},
+        modifies=[],
         raises={"ValueError": None, "TypeError": None},
         ensures=[
             # construction succeeds only on >= 2 strictly increasing knots
             "len(x) >= 2",
             "forall(lambda k: x[k + 1] > x[k], 0, len(x) - 1)",
-            "self._coeffs.shape[0] == len(x) - 1",
+            "self._coeffs.shape[0] == len(x) - 1 and self._coeffs.shape[1] == 4",
             # Hermite data of interval i: value y[i], slope = standard PCHIP derivative
             "forall(lambda i: self._coeffs[i, 0] == y[i] and self._coeffs[i, 1] == spec_d(H, DELTA, i),"
             " 0, len(x) - 1)",
@@ -201,7 +268,14 @@ def register(reg, prop="C20"):
             " - spec_d(H, DELTA, i + 1)) / H[i], 0, len(x) - 1)",
             "forall(lambda i: self._coeffs[i, 3] == (spec_d(H, DELTA, i) + spec_d(H, DELTA, i + 1)"
             " - 2 * DELTA[i]) / (H[i] * H[i]), 0, len(x) - 1)",
+            "len(self.x) == len(x) and len(self.y) == len(x)",
             "forall(lambda k: self.x[k] == x[k] and self.y[k] == y[k], 0, len(x))",
+        ],
+        derived=[
+            # the derivatives satisfy the Fritsch-Carlson condition on both adjacent intervals
+            # (a fact about the specification function: lemma spec_d_is_fc at the right indices)
+            "forall(lambda i: FC(spec_d(H, DELTA, i), DELTA[i]) and FC(spec_d(H, DELTA, i + 1), DELTA[i]),"
+            " 0, len(x) - 1)",
         ],
     ))
 
@@ -213,31 +287,88 @@ def register(reg, prop="C20"):
         s.fields["x"] = reg.sym_tensor(I, "x", (n,))
         s.fields["y"] = reg.sym_tensor(I, "y", (n,))
         s.fields["_coeffs"] = reg.sym_tensor(I, "coeffs", (n - 1, 4))
+        s.fields["dg"] = reg.sym_tensor(I, "dg", (n,))          # ghost: knot derivatives
         fr.locals["self"] = s
         fr.locals["xq"] = reg.sym_tensor(I, "xq", (q,))
-        fr.locals["idx"] = lambda I2, j: to_z3(I2.reg.hooks["last_frame"].locals["i"].fn(j))
+
+    def ghost_call(I, fr):
+        s = fr.locals["self"]
+        hh, dd = secants(s.fields["x"], s.fields["y"])
+        fr.locals["H"], fr.locals["DELTA"] = hh, dd
+        code = fr.locals.get("__frame__")
+        if code is not None and "i" in code.locals:
+            # verifying the body: the interval index is the code's own local `i`
+            fr.locals["idx"] = lambda I2, j: to_z3(code.locals["i"].fn(j))
+        elif "idx" not in fr.locals:
+            # call site / derived context: the interval index is some function of the query position
+            f = z3.Function(I.ctx.fresh_name("interval"), z3.IntSort(), z3.IntSort())
+
+            def idx(I2, j):
+                v = f(to_z3(j))
+                I2.saw_index(v)
+                I2.saw_index(v + 1)
+                return v
+            fr.locals["idx"] = idx
+        if fr.locals.get("result") is not None and code is None:
+            # instances of lemma hermite_shape (proved separately for all reals) for the interval
+            # of each query point -- used by the derived clauses, not by the code proof
+            xq, xs, ys, dg = fr.locals["xq"], s.fields["x"], s.fields["y"], s.fields["dg"]
+            idxf = fr.locals["idx"]
+
+            def inst(j):
+                k = idxf(I, j)
+                return use_hermite(hh.fn(k), ys.fn(k), ys.fn(k + 1), dg.fn(k), dg.fn(k + 1),
+                                   R(xq.fn(j)) - R(xs.fn(k)))
+            I.add_forall(ForallV(inst, 0, xq.shape[0], "j"))
+            I.session.note("lemma instances used: hermite_shape (proved in this run)")
+
+    def setup_call2(I, fr):
+        setup_call(I, fr)
+        ghost_call(I, fr)
 
     reg.add_contract(Contract(
         f"{MOD}:PCHIP1D.__call__", property=prop,
-        params={"self": hd, "xq": hd}, setup=setup_call,
+        params={"self": hd, "xq": hd}, setup=setup_call2, post_setup=ghost_call,
         policies={f"{MOD}:PCHIP1D._interval_index": "inline"},
-        # strictly increasing knots, in the transitive form (equivalent to the adjacent form by
-        # induction on b - a: base and step are the lemma `sorted_transitive`)
-        requires=["forall(lambda a: forall(lambda b: implies(a < b, self.x[a] < self.x[b]), 0, len(self.x)),"
-                  " 0, len(self.x))"],
+        requires=[
+            "len(self.x) >= 2 and len(self.y) == len(self.x) and len(self.dg) == len(self.x)",
+            "self._coeffs.shape[0] == len(self.x) - 1 and self._coeffs.shape[1] == 4",
+            # strictly increasing knots ...
+            "forall(lambda k: self.x[k] < self.x[k + 1], 0, len(self.x) - 1)",
+            # ... hence first/last knot are the extremes (consequence of the line above by induction
+            # on k: base and step are the lemma `sorted_transitive`; stated so that callers
+            # establish it and the proof here stays free of nested quantifiers)
+            "forall(lambda k: self.x[0] <= self.x[k] and self.x[k] <= self.x[len(self.x) - 1], 0, len(self.x))",
+            # representation invariant: the coefficients are the Hermite cubics of (x, y, dg) ...
+            "forall(lambda i: self._coeffs[i, 0] == self.y[i] and self._coeffs[i, 1] == self.dg[i]"
+            " and self._coeffs[i, 2] == (3 * DELTA[i] - 2 * self.dg[i] - self.dg[i + 1]) / H[i]"
+            " and self._coeffs[i, 3] == (self.dg[i] + self.dg[i + 1] - 2 * DELTA[i]) / (H[i] * H[i]),"
+            " 0, len(self.x) - 1)",
+            # ... whose derivatives satisfy the Fritsch-Carlson condition
+            "forall(lambda i: FC(self.dg[i], DELTA[i]) and FC(self.dg[i + 1], DELTA[i]), 0, len(self.x) - 1)",
+        ],
+        returns=lambda I, n, env: reg.sym_tensor(I, I.ctx.fresh_name("pchip_out"), (env["xq"].shape[0],)),
         ensures=[
             "len(result) == len(xq)",
             # the interval used for each query point ...
             "forall(lambda j: 0 <= idx(j) and idx(j) <= len(self.x) - 2, 0, len(xq))",
             # ... brackets it inside the data range,
             "forall(lambda j: implies(self.x[0] <= xq[j] and xq[j] < self.x[len(self.x) - 1],"
-            " self.x[idx(j)] <= xq[j] and xq[j] < self.x[idx(j) + 1]), 0, len(xq))",
+            " self.x[idx(j)] <= xq[j] and xq[j] <= self.x[idx(j) + 1]), 0, len(xq))",
             # ... and is the first / last interval outside it (extrapolation by the end cubics)
             "forall(lambda j: implies(xq[j] < self.x[0], idx(j) == 0), 0, len(xq))",
             "forall(lambda j: implies(xq[j] >= self.x[len(self.x) - 1], idx(j) == len(self.x) - 2), 0, len(xq))",
             # the value is that interval's cubic in the local coordinate
             "forall(lambda j: result[j] == horner(self._coeffs[idx(j), 0], self._coeffs[idx(j), 1],"
             " self._coeffs[idx(j), 2], self._coeffs[idx(j), 3], xq[j] - self.x[idx(j)]), 0, len(xq))",
+        ],
+        derived=[
+            # shape preservation: inside the data range the value lies between the two knot values
+            "forall(lambda j: implies(self.x[0] <= xq[j] and xq[j] <= self.x[len(self.x) - 1],"
+            " min(self.y[idx(j)], self.y[idx(j) + 1]) <= result[j]"
+            " and result[j] <= max(self.y[idx(j)], self.y[idx(j) + 1])), 0, len(xq))",
+            # knots are reproduced
+            "forall(lambda j: implies(xq[j] == self.x[idx(j)], result[j] == self.y[idx(j)]), 0, len(xq))",
         ],
     ))
 
@@ -296,34 +427,23 @@ def lemma_hermite_shape(I, ctx):
     """Under the Fritsch-Carlson condition the Hermite cubic on [0,h] reproduces the data, is C1 at
     the knots, monotone, and stays between the end values."""
     h, y0, y1, d0, d1, t = [ctx.fresh(n, "real") for n in ("h", "y0", "y1", "d0", "d1", "t")]
-    delta = (y1 - y0) / h
-    ctx.assume(z3.And(h > 0, t >= 0, t <= h))
-    p2 = (3 * delta - 2 * d0 - d1) / h
-    p3 = (d0 + d1 - 2 * delta) / (h * h)
-    P = lambda s: y0 + s * (d0 + s * (p2 + s * p3))
-    dP = lambda s: d0 + 2 * p2 * s + 3 * p3 * s * s
-    ctx.prove("knot-left", P(0) == y0, "lemma")
-    ctx.prove("knot-right", P(h) == y1, "lemma")
-    ctx.prove("slope-left", dP(0) == d0, "lemma")
-    ctx.prove("slope-right", dP(h) == d1, "lemma")
-    ctx.assume(z3.And(fc(d0, delta), fc(d1, delta)))
-    ctx.prove("monotone", dP(t) * delta >= 0, "lemma")
-    lo = z3.If(y0 <= y1, y0, y1)
-    hi = z3.If(y0 <= y1, y1, y0)
-    ctx.prove("bounded-below", P(t) >= lo, "lemma")
-    ctx.prove("bounded-above", P(t) <= hi, "lemma")
+    hyp0, concl0, hyp1, concl1 = stmt_hermite(h, y0, y1, d0, d1, t)
+    ctx.assume(hyp0)
+    for name, c in concl0:
+        ctx.prove(name, c, "lemma")
+    ctx.assume(hyp1)
+    for name, c in concl1:
+        ctx.prove(name, c, "lemma")
 
 
 def lemma_spec_d_is_fc(I, ctx):
     """The standard derivative satisfies the Fritsch-Carlson condition w.r.t. both neighbouring
     secants (interior) and w.r.t. its own secant (ends)."""
     hl, hr, dl, dr = [ctx.fresh(n, "real") for n in ("hl", "hr", "dl", "dr")]
-    ctx.assume(z3.And(hl > 0, hr > 0))
-    d = spec_interior(hl, hr, dl, dr)
-    ctx.prove("interior-fc-left", fc(d, dl), "lemma")
-    ctx.prove("interior-fc-right", fc(d, dr), "lemma")
-    e = spec_end(hl, hr, dl, dr)
-    ctx.prove("end-fc", fc(e, dl), "lemma")
+    hyp, concl = stmt_spec_fc(hl, hr, dl, dr)
+    ctx.assume(hyp)
+    for name, c in concl:
+        ctx.prove(name, c, "lemma")
 
 
 def lemma_vacuity(I, ctx):
